@@ -49,6 +49,9 @@ type LifeCase struct {
 	IdleS    int64      `json:"idle_s"`
 	TTLS     int64      `json:"ttl_s"`
 	Shutdown bool       `json:"shutdown"`
+	// DefaultReg: the registry is the one NewRegistry() gives (as the server uses
+	// it); the configuration documents an idle limit of 30 s, which IdleS is then
+	DefaultReg bool `json:"default_registry,omitempty"`
 }
 
 func lifeKey(client int) []byte { return []byte(fmt.Sprintf("life/c%d", client)) }
@@ -68,6 +71,10 @@ func runC17(t *testing.T, c LifeCase) *kit.Result {
 			return
 		}
 		reg := transaction.NewRegistryWithTTL(time.Duration(c.TTLS)*time.Second, time.Duration(c.IdleS)*time.Second, 75, 90)
+		if c.DefaultReg {
+			reg.GracefulShutdown(context.Background())
+			reg = transaction.NewRegistry()
+		}
 		fail := func(v *kit.Violation) {
 			if res.V == nil {
 				res.V = v
@@ -271,6 +278,9 @@ func runC17(t *testing.T, c LifeCase) *kit.Result {
 func genLifeCase(r *kit.Rand, tier string) LifeCase {
 	c := LifeCase{Sched: kit.GenSched(r, "conc"), Knobs: kit.GenKnobs(r), IdleS: int64(kit.PickOf(r, 2, 10, 30)), TTLS: int64(kit.PickOf(r, 20, 60, 300)), Shutdown: r.Bool(0.3)}
 	c.Sched.MaxVirtS = 3600
+	if r.Bool(0.12) {
+		c.DefaultReg, c.IdleS, c.TTLS = true, 30, 300
+	}
 	nc := r.Range(2, 5)
 	for i := 0; i < nc; i++ {
 		var ops []LifeOp
